@@ -48,4 +48,5 @@ PROPS = {
         "assumptions": ["Go's sync.Mutex provides mutual exclusion; Has and New touch shared state only through Value and Set"],
         "explanation": "PARTIAL by design: lockset soundness theorem (any number of threads, any schedule) + vm_compute check of the table regenerated from /repo; the runtime half is the race-detector harness (context reader/writer mixes, shared template with separate contexts incl. children of one parent, cache on/off), every concurrent result compared with the sequential one",
     },
+    "LEX": {"level": "other", "cone": [], "explanation": "internal: lexer model vs lexer.NextToken"},
 }
